@@ -24,13 +24,14 @@ class CropsMinusGreenhouses(Contract):
     merge = True
     np_floats = True
 
-    def __init__(self, N, rotation, expand=False, outdoor=True):
-        self.N, self.rotation, self.expand, self.outdoor = N, rotation, expand, outdoor
-        self.name = f"N{N},{'relocated' if rotation else 'not_relocated'}{',expanded' if expand else ''}{'' if outdoor else ',no_outdoor'}"
+    def __init__(self, N, rotation, expand=False, outdoor=True, years=3):
+        self.N, self.rotation, self.expand, self.outdoor, self.years = N, rotation, expand, outdoor, years
+        self.name = (f"N{N},{'relocated' if rotation else 'not_relocated'}{',expanded' if expand else ''}{'' if outdoor else ',no_outdoor'}"
+                     + ("" if years == 3 else f",expansion_takes_{years}_years"))
 
     def inputs(self, S):
         N = self.N
-        consts, p = crop_constants(S, N, self.rotation, True, outdoor=self.outdoor, expand=self.expand)
+        consts, p = crop_constants(S, N, self.rotation, True, outdoor=self.outdoor, expand=self.expand, years_to_expand=self.years)
         ghf = S.series("greenhouse_fraction", N)
         S.assume(And(*[And(ghf[m] >= 0, ghf[m] <= 1) for m in range(N)]))
         params = S.call(PARAMS, "Parameters")
@@ -158,6 +159,9 @@ def _mk():
         for rot in (True, False):
             cs.append(CropsMinusGreenhouses(N, rot))
     cs.append(CropsMinusGreenhouses(120, True, expand=True))
+    # the expansion ramp for an immediate expansion and a one-year ramp (the scenario setter uses three years)
+    cs.append(CropsMinusGreenhouses(48, True, expand=True, years=0))
+    cs.append(CropsMinusGreenhouses(48, True, expand=True, years=1))
     cs.append(CropsMinusGreenhouses(48, True, outdoor=False))
     for N in (48, 120):
         for delay in (0, 2, 6):
